@@ -890,13 +890,44 @@ func (fr *Frame) staticCall(in ssa.Instruction, fn *ssa.Function, mc *ssa.MakeCl
 		names := sp.paramNames(fn, fn.Signature, false)
 		r, st2 := fr.applyContract(sp, fn, name, names, args, resT, fn.Signature, b, st, guard, in)
 		setRes(r)
-		return st2
+		return fr.havocCaptured(mc, st2, guard)
 	}
 	var ms *ModSet
 	if fn.Blocks != nil && fc.g.analysable(fn) {
 		ms = fc.g.fnMods(fc, fn)
 	}
-	return fr.havocCall(in, name, args, resT, ms, b, st, guard, setRes)
+	return fr.havocCaptured(mc, fr.havocCall(in, name, args, resT, ms, b, st, guard, setRes), guard)
+}
+
+// havocCaptured: a closure that is called without being inlined may have written every variable of the enclosing
+// function it captures by reference and stores to (a deferred closure assigning a named result, say). Those variables
+// are local cells of the caller (immune to heap havoc), so they are havocked here, under the call's guard.
+func (fr *Frame) havocCaptured(mc *ssa.MakeClosure, st *State, guard string) *State {
+	if mc == nil {
+		return st
+	}
+	fc := fr.fc
+	for _, bnd := range mc.Bindings {
+		a, ok := fr.addrs[bnd]
+		if !ok || a == nil || a.Kind != aLocal || !closureWrites(mc, bnd, 0) {
+			continue
+		}
+		al, isAlloc := bnd.(*ssa.Alloc)
+		if !isAlloc {
+			continue
+		}
+		pt := pointee(al.Type())
+		for _, l := range fc.leafSorts(pt) {
+			n := a.Name + l[0]
+			old := st.get(n)
+			st = st.havocSet(map[string]bool{n: true})
+			if guard != "true" {
+				st = st.setRaw(n, sIte(guard, st.get(n), old))
+			}
+		}
+		fc.note("variable " + al.Comment + " captured and written by a closure called without inlining: unknown after the call")
+	}
+	return st
 }
 
 // inline translates the callee's body in place.
